@@ -92,13 +92,19 @@ def stream_serialize_vlq(f: BinaryIO, i: int) -> None:
 def stream_deserialize_vlq(f: BinaryIO) -> int:
     """ """
     result = 0
+    n_bytes = 0
 
     while True:
         (b,) = struct.unpack(b"B", safe_read(f, 1))
+        n_bytes += 1
 
         result += (b % 128)
 
         if b < 128:
+            # only the encoding that stream_serialize_vlq produces is accepted: ids are hashes of the received bytes,
+            # so a second accepted encoding of the same number would give the same content a second id.
+            if n_bytes != (result.bit_length() // 7) + 1:
+                raise DeserializationError("Non-canonical VLQ")
             return result
 
         result *= 128
